@@ -1443,12 +1443,45 @@ func sanitised(fn *ssa.Function, v ssa.Value, clear *ssa.Store) (string, bool) {
 			return "re-sliced to [:0]", true
 		}
 	}
-	if v.Referrers() != nil {
+	// the value itself, or another load of the same field that nothing assigns before the clear
+	vals := []ssa.Value{v}
+	if ld, ok := v.(*ssa.UnOp); ok && ld.Op == token.MUL {
+		if _, isField := ld.X.(*ssa.FieldAddr); isField {
+			want := accessPath(ld.X)
+			assigned := false
+			var others []ssa.Value
+			for _, b := range fn.Blocks {
+				for _, ins := range b.Instrs {
+					switch x := ins.(type) {
+					case *ssa.Store:
+						if _, isF := x.Addr.(*ssa.FieldAddr); isF && x != clear && accessPath(x.Addr) == want && canExecuteAfter(x, clear) {
+							assigned = true
+						}
+					case *ssa.UnOp:
+						if _, isF := x.X.(*ssa.FieldAddr); isF && x.Op == token.MUL && x != ld && accessPath(x.X) == want && canExecuteAfter(x, clear) {
+							others = append(others, x)
+						}
+					}
+				}
+			}
+			if !assigned {
+				vals = append(vals, others...)
+			}
+		}
+	}
+	for _, v := range vals {
+		if v.Referrers() == nil {
+			continue
+		}
 		for _, ref := range *v.Referrers() {
 			if ci, ok := ref.(ssa.CallInstruction); ok {
 				if sc := ci.Common().StaticCallee(); sc != nil && sanitiserNames[sc.Name()] && len(ci.Common().Args) > 0 && ci.Common().Args[0] == v {
 					// the call must come before the clear on every path where v != nil
 					if ci.Block().Dominates(clear.Block()) || nilGuardedCall(ci) && ci.Block().Idom() != nil && ci.Block().Idom().Dominates(clear.Block()) {
+						return sc.Name() + "() called on it", true
+					}
+					// (the nil test and the call may read the field separately)
+					if gb := nilGuardBlock(ci); gb != nil && gb.Dominates(clear.Block()) {
 						return sc.Name() + "() called on it", true
 					}
 				}
